@@ -486,6 +486,39 @@ def r_state(ctx):
     for m in ctx.p.modules.values():
         for name, v in m.globals.items():
             ok = _immutable_default(v, m.globals)
+            if not ok:
+                # a mutable module-level object carries state only through a function that touches it
+                users, writers = [], []
+                for m2 in ctx.p.modules.values():
+                    visible = m2 is m or any(q == m.name + '.' + name for q in m2.imports.values()) or \
+                        any(q == m.name for q in m2.imports.values())
+                    if not visible:
+                        continue
+                    for fn in ast.walk(m2.tree):
+                        if not isinstance(fn, (ast.FunctionDef, ast.Lambda)):
+                            continue
+                        for n_ in ast.walk(fn):
+                            if isinstance(n_, ast.Name) and n_.id == name:
+                                users.append((m2.name, n_.lineno))
+                            elif isinstance(n_, ast.Attribute) and n_.attr == name and m2 is not m:
+                                users.append((m2.name, n_.lineno))
+                            if isinstance(n_, ast.Global) and name in n_.names:
+                                writers.append((m2.name, n_.lineno))
+                            if isinstance(n_, ast.Call) and isinstance(n_.func, ast.Attribute) and n_.func.attr in MUTATING_METHODS \
+                                    and isinstance(n_.func.value, ast.Name) and n_.func.value.id == name:
+                                writers.append((m2.name, n_.lineno))
+                            if isinstance(n_, (ast.Subscript, ast.Attribute)) and isinstance(n_.ctx, (ast.Store, ast.Del)) and \
+                                    isinstance(n_.value, ast.Name) and n_.value.id == name:
+                                writers.append((m2.name, n_.lineno))
+                if not users and not writers:
+                    run.ok('R-STATE', m.name + '.<module>', 'module-global:%s' % name, getattr(v, 'lineno', 0),
+                           'mutable module-level value that no function of the package touches', nontrivial=False)
+                    continue
+                if not writers:
+                    run.undecided('R-STATE', m.name + '.<module>', 'module-global:%s' % name, getattr(v, 'lineno', 0),
+                                  'mutable module-level object %s is read by functions (%s line %d); whether it escapes to a '
+                                  'caller is not tracked' % (name, users[0][0], users[0][1]))
+                    continue
             run.check(ok, 'R-STATE', m.name + '.<module>', 'module-global:%s' % name, getattr(v, 'lineno', 0),
                       'immutable module-level value', 'module-level mutable object %s = %s can carry state between calls'
                       % (name, ast.unparse(v)[:60]), inputs='any two calls in one process', nontrivial=False)
@@ -1103,8 +1136,9 @@ def _region_violation(st, monitors, region_locals=frozenset()):
                     return 'argument %s of a progress call has side effects' % ast.unparse(a)[:60]
             return None
         return 'statement `%s` inside a verbose region is not a print / monitor call' % ast.unparse(st)[:60]
-    if isinstance(st, ast.Assign) and all(isinstance(t, ast.Name) and t.id in region_locals for t in st.targets) \
-            and _pure_expr(st.value):
+    if isinstance(st, ast.Assign) and _pure_expr(st.value) and \
+            all(isinstance(e_, ast.Name) and e_.id in region_locals
+                for t in st.targets for e_ in (t.elts if isinstance(t, (ast.Tuple, ast.List)) else [t])):
         return None         # a temporary that lives only inside verbose regions
     if isinstance(st, ast.If):
         if not _pure_expr(st.test):
@@ -1196,6 +1230,7 @@ def r_monitor(ctx):
               "Monitor.__call__ %s: the call sites pass counts (find_vertices: {'valid': sum(...)}, remove_useless: {'round': n}), so "
               "the progress output raises TypeError as soon as verbose=True is used there" % (bad[1] if bad else ''),
               inputs='find_vertices / remove_useless / latter_map_to_accessor with verbose=True', nontrivial=False)
-    rets = [nd for nd in f.stmts(ast.Return) if nd.stmt.value is not None]
+    rets = [nd for nd in f.stmts(ast.Return) if nd.stmt.value is not None and
+            not (isinstance(nd.stmt.value, ast.Constant) and nd.stmt.value.value is None)]
     run.check(not rets, 'R-VERB', f, 'monitor:returns-nothing', rets[0].lineno if rets else f.node.lineno,
               'the progress monitor returns nothing', 'Monitor.__call__ returns a value', nontrivial=False)
